@@ -1,9 +1,9 @@
 package main
 
 import (
-	"go/types"
 	"fmt"
 	"go/token"
+	"go/types"
 	"sort"
 	"strings"
 
@@ -208,6 +208,8 @@ func runC12(c *Ctx, r *Run) {
 		r.Check("SYM-1", name+"|symmetric-residue", c.Pos(dec.Pos()), ok, "the plaintext is returned as the symmetric residue modulo N", "Dec does not end in SetModSymmetric(·, N): plaintexts above N/2 are not mapped back to negative values")
 	}
 
+	checkCapacities(c, r, "CAP-1")
+	r.Require("CAP-1", 15)
 	// ---- CRT-1
 	for _, mn := range []string{"Exp", "ExpI"} {
 		fn := c.LookupMethod("pkg/math/arith", "Modulus", mn)
@@ -875,6 +877,79 @@ func checkClones(c *Ctx, r *Run, rule string) {
 			}
 			r.Check(rule, name+"|deep", c.Pos(fn.Pos()), shared == "", T.Obj().Name()+"."+fn.Name()+" returns an object that shares no mutable reference field with the receiver",
 				shared+": operations that update the copy in place (Add, Randomize, Negate, ...) silently change the original too")
+		}
+	}
+}
+
+// checkCapacities: CAP-1. saferith's plain (non-modular) operations take an announced capacity in bits and silently
+// truncate the result to it. Every such call passes -1 (exact size) or a capacity computed from the full modulus the
+// value lives under — never from one prime factor, which is half as wide.
+func checkCapacities(c *Ctx, r *Run, rule string) {
+	r.Rule(rule, "announced capacities of plain big-number operations are -1 or derived from the full modulus, never from a prime factor")
+	capOps := map[string]bool{"Mul": true, "Add": true, "Sub": true, "Lsh": true, "Rsh": true}
+	for _, p := range c.LibPkgs() {
+		for _, top := range funcsOfPkg(c, c.SSA[p.Types]) {
+			withAnon(top, func(fn *ssa.Function) {
+				nth := map[string]int{}
+				allInstrs(fn, func(in ssa.Instruction) {
+					call, ok := in.(*ssa.Call)
+					if !ok {
+						return
+					}
+					f := call.Call.StaticCallee()
+					if f == nil || f.Pkg == nil || !strings.HasSuffix(f.Pkg.Pkg.Path(), "cronokirby/saferith") || !capOps[f.Name()] || f.Signature.Recv() == nil {
+						return
+					}
+					ps := f.Signature.Params()
+					if ps.Len() == 0 {
+						return
+					}
+					if b, isB := ps.At(ps.Len() - 1).Type().Underlying().(*types.Basic); !isB || b.Kind() != types.Int {
+						return
+					}
+					capV := call.Call.Args[len(call.Call.Args)-1]
+					nth[f.Name()]++
+					key := fmt.Sprintf("%s|%s #%d|capacity", c.FuncName(fn), f.Name(), nth[f.Name()])
+					if k, isC := constInt(capV); isC {
+						r.Check(rule, key, c.Pos(call.Pos()), k == -1, "exact-size result (-1)",
+							fmt.Sprintf("the result is truncated to a constant %d bits", k))
+						return
+					}
+					// computed capacity: every BitLen it is built from is taken of a full modulus
+					bad := ""
+					nBL := 0
+					dependsOn(capV, func(v ssa.Value) bool {
+						bl, isCall := v.(*ssa.Call)
+						if !isCall {
+							return false
+						}
+						g := bl.Call.StaticCallee()
+						if g == nil || g.Name() != "BitLen" {
+							return false
+						}
+						nBL++
+						if len(bl.Call.Args) == 0 {
+							return false
+						}
+						of := path(bl.Call.Args[0])
+						last := of
+						if i := strings.LastIndexByte(of, '.'); i >= 0 {
+							last = of[i+1:]
+						}
+						switch strings.ToLower(last) {
+						case "p", "q", "pnat", "qnat", "psquared", "qsquared", "p2", "q2":
+							bad = of
+						}
+						return false
+					})
+					ok = bad == "" && nBL > 0
+					detail := "the announced capacity " + path(capV) + " is computed from " + bad + ", one prime factor: for factors of unequal width the product/sum needs more bits than that and saferith silently drops the top bits (results modulo N or N² come out wrong for part of the operands)"
+					if nBL == 0 {
+						detail = "the announced capacity " + path(capV) + " is neither -1 nor computed from the bit length of the modulus: it is not known to hold the result, and saferith truncates silently"
+					}
+					r.Check(rule, key, c.Pos(call.Pos()), ok, "capacity from the full modulus", detail)
+				})
+			})
 		}
 	}
 }
